@@ -28,7 +28,8 @@ EXPLANATION = (
     ' (R9/R10) write-once namespace and who-may-delete censuses (shared with C09.R1/R3): every file a dying process can leave is the pointer, a marker or a fresh name, and recovery / maintenance code never deletes on its own judgement.'
     ' (R13) storage effects are synchronous (C16.R9).'
     " (R14) lock ages are UTC-correct (C20.R11, interprocedural); (R15) the fallback lock's age is wall-clock now minus mtime (C19.R11)."
-    " (R16) version numbers are compared, never truth-tested (the pointer to v0 is honoured); (R17) a dead holder's S3 lock can be taken over: the lease test compares age and lease in one unit (C19.R3).")
+    " (R16) version numbers are compared, never truth-tested (the pointer to v0 is honoured); (R17) a dead holder's S3 lock can be taken over: the lease test compares age and lease in one unit (C19.R3)."
+    ' (R18) not-found classification per request kind (C20.R2): a GetObject helper reads the GET row of a code table, never the HEAD row. R1 asks that SOME write to the mkstemp descriptor dominates the rename (a completing retry loop adds write sites) [D22].')
 NOT_DECIDED = ("the reopen-and-compare statement over every crash point; atomicity of os.replace / PUT; that a "
                "later collection removes only leftovers")
 
